@@ -1,0 +1,74 @@
+//go:build verif
+
+package actor
+
+// Contracts for property C01 (one handler invocation at a time), kernel: the
+// three-state ownership machine and the discipline of its users. Each atomic
+// operation is read sequentially; exclusivity then follows from the atomicity
+// of CompareAndSwap (assumed): only one caller can win Scheduled -> Processing.
+
+//@ property C01
+//@ load sync/atomic
+
+// ---- the state machine -----------------------------------------------------------------
+//@ func (*dispatchState).TrySchedule(s)
+//@   ensures only-from-idle: result == (old(s.v.v) == dispatchIdle)
+//@   ensures wins-to-scheduled: result ==> s.v.v == dispatchScheduled
+//@   ensures loses-without-effect: !result ==> s.v.v == old(s.v.v)
+
+//@ func (*dispatchState).TakeForProcessing(s)
+//@   ensures only-from-scheduled: result == (old(s.v.v) == dispatchScheduled)
+//@   ensures wins-ownership: result ==> s.v.v == dispatchProcessing
+//@   ensures loses-without-effect: !result ==> s.v.v == old(s.v.v)
+
+//@ func (*dispatchState).Load(s)
+//@   ensures result == s.v.v
+//@   modifies nothing
+
+//@ func (*dispatchState).YieldToScheduled(s)
+//@   ensures s.v.v == dispatchScheduled
+
+//@ func (*dispatchState).reset(s)
+//@   ensures s.v.v == dispatchIdle
+
+//@ structural writers PID.schedState: (*PID).doReceive, (*PID).runTurn, (*PID).finishOrReclaim, restartSubtree
+
+// ---- the worker turn: a handler runs only while this worker owns the actor ----------------
+//@ func (*PID).runTurn(pid, w)
+//@   requires w != nil && w.dispatcher != nil
+//@   preserve PID.schedState
+//@   loop 1 invariant owns-the-actor: pid.schedState.v.v == dispatchProcessing
+//@   at call 1 of (*PID).dispatchOne assert handler-runs-only-under-ownership: pid.schedState.v.v == dispatchProcessing && arg0 == pid
+//@   at call 2 of (*PID).dispatchOne assert handler-runs-only-under-ownership: pid.schedState.v.v == dispatchProcessing && arg0 == pid
+//@   at call 1 of (*dispatchState).YieldToScheduled assert only-the-owner-yields: pid.schedState.v.v == dispatchProcessing
+//@   at call 1 of (*PID).finishOrReclaim assert only-the-owner-releases: pid.schedState.v.v == dispatchProcessing
+
+// release + race-safe reclaim: returns false only when ownership was re-acquired
+//@ func (*PID).finishOrReclaim(pid)
+//@   requires pid.schedState.v.v == dispatchProcessing
+//@   preserve PID.schedState
+//@   ensures continues-only-as-owner: !result ==> pid.schedState.v.v == dispatchProcessing
+
+// Rely step (trusted): while a worker owns the actor (state Processing) the only
+// operations any other code - the handler itself, a concurrent Tell, another
+// worker - can apply to THIS actor's dispatch state are TrySchedule and
+// TakeForProcessing, which are no-ops in that state (their contracts above);
+// YieldToScheduled and reset are owner-only (site assertions in runTurn /
+// finishOrReclaim). The one exception is restartSubtree's reset: see below.
+//@ func (*PID).dispatchOne(pid, received, now)
+//@   trusted "rely: nobody but the owner takes an actor out of Processing (TrySchedule/TakeForProcessing are no-ops there)"
+//@   ensures stays-owned: old(pid.schedState.v.v) == dispatchProcessing ==> pid.schedState.v.v == dispatchProcessing
+
+// a handler is entered only through dispatchOne, and dispatchOne only from a turn
+//@ structural callers (*PID).dispatchOne: (*PID).runTurn
+//@ structural callers (*PID).handleReceived: (*PID).dispatchOne, (*PID).handleAsyncRequest
+
+// forcing the state back to Idle is legitimate for the owner (finishOrReclaim) or
+// when no worker holds the actor; the restart path does it after waiting for
+// that, but handles messages again before it resets
+//@ structural writers PID.behaviorStack: newPID
+//@ func restartSubtree(ctx, node, parent, tree, deathWatch, actorSystem)
+//@   requires node != nil && node.pid != nil && node.pid.behaviorStack != nil
+//@   preserve PID.behaviorStack
+//@   at call 1 of (*PID).init interference PID.schedState
+//@   at call 1 of (*dispatchState).reset assert resets-only-an-actor-no-worker-holds: pid.schedState.v.v != dispatchProcessing
